@@ -19,9 +19,9 @@ func init() {
 	Registry["C03"] = runC03
 }
 
-const explanationC02 = "Decides structural necessary conditions of C02 (request side): (R02.1) the attribute-name⇄wire-name tables of a mapped attribute stay inverse of each other — every store into one is paired with the swapped store into the other, copies copy both, deletes delete from both, and each lookup direction reads its own table; (R02.2) the request body is the payload minus everything mapped elsewhere — headers, cookies, params, the map-query attribute and the implicit header attributes all reach removeAttribute(s) on the body; (R02.3) the string⇄typed conversion templates use the strconv family, bit size and cast of each primitive type; (R02.4) every transport accessor in the request/response templates is keyed by the element's wire-name field (HTTPName, or CanonicalName for headers; direct indexing of a header map only by CanonicalName) on the writing and on the reading side, never by the attribute or variable name; raw values are tested for presence on the raw variable they were read into; (R02.5) path values are unescaped exactly once (shared with C16/R16.2) and request decoding picks the codec of the announced type (shared with C15/R15.1); (R02.6) template range bodies use their element; required flags are propagated under the key they are looked up with; (R02.7) the request encoder guards a field only against nil, never against a zero value; (R02.8) loops over References apply Inherit and loops over Bases apply Merge in every implementation. (R02.12) the transport struct fields of body types carry omitempty exactly when the attribute may be absent from the wire (path table of the caller of attributeTags). (R02.11) pooled buffers of the runtime packages are Reset by their users (shared with C20). NOT decided: equality of the payload received with the payload sent for any design (needs execution of generated code), default injection, escaping of query values."
+const explanationC02 = "Decides structural necessary conditions of C02 (request side): (R02.1) the attribute-name⇄wire-name tables of a mapped attribute stay inverse of each other — every store into one is paired with the swapped store into the other, copies copy both, deletes delete from both, and each lookup direction reads its own table; (R02.2) the request body is the payload minus everything mapped elsewhere — headers, cookies, params, the map-query attribute and the implicit header attributes all reach removeAttribute(s) on the body; (R02.3) the string⇄typed conversion templates use the strconv family, bit size and cast of each primitive type; (R02.4) every transport accessor in the request/response templates is keyed by the element's wire-name field (HTTPName, or CanonicalName for headers; direct indexing of a header map only by CanonicalName) on the writing and on the reading side, never by the attribute or variable name; raw values are tested for presence on the raw variable they were read into; (R02.5) path values are unescaped exactly once (shared with C16/R16.2) and request decoding picks the codec of the announced type (shared with C15/R15.1); (R02.6) template range bodies use their element; required flags are propagated under the key they are looked up with; (R02.7) the request encoder guards a field only against nil, never against a zero value; (R02.8) loops over References apply Inherit and loops over Bases apply Merge in every implementation. (R02.12) the transport struct fields of body types carry omitempty exactly when the attribute may be absent from the wire (path table of the caller of attributeTags). (R02.11) pooled buffers of the runtime packages are Reset by their users (shared with C20). (R02.13) in every function that merges inherited attributes into a body (extendBodyAttribute), every removal of header, cookie and parameter attributes from that body comes after the merge. NOT decided: equality of the payload received with the payload sent for any design (needs execution of generated code), default injection, escaping of query values."
 
-const explanationC03 = "Decides structural necessary conditions of C03 (response side): (R03.1) in the response encoder template each response arm writes the status code of its own range element after its headers and before the body, tagged arms compare the tag field with that element's tag value, and the client decoder's case labels come from the same field; the DSL gives a response its default status before the response DSL runs so that an explicit Code() is kept; (R03.2) errors captured by the attribute walkers of the transform generators are tested after each walk; (R03.3) the status vocabulary — every expr.Status* constant has the value of the like-named net/http constant; (R03.4) the response body is the result minus headers and cookies, wire accessors use wire-name fields on both sides (shared with R02.2/R02.4), conversion templates are inverse pairs (R02.3); (R03.5) tag-pointer decisions keep the viewed-result guard; no stale per-iteration state in the response data builder; the client response decoder picks the codec of the announced Content-Type (shared with C15/R15.1); (R03.6) the response encoder guards a field only against nil, never against a zero value. shared R17.5 (the pattern cache is keyed by the pattern: a result is validated against its own pattern). shared R08.11 (a nested result type is projected with its own view or the default one). (R03.7) what belongs to one response (its fixed content type) is set inside the test that selects the response. (R03.8) the nil test of a response header depends on the header's own attribute, not on the response being selected by a tag (known finding). NOT decided: equality of the result received with the result sent (needs execution), streaming order, default injection."
+const explanationC03 = "Decides structural necessary conditions of C03 (response side): (R03.1) in the response encoder template each response arm writes the status code of its own range element after its headers and before the body, tagged arms compare the tag field with that element's tag value, and the client decoder's case labels come from the same field; the DSL gives a response its default status before the response DSL runs so that an explicit Code() is kept; (R03.2) errors captured by the attribute walkers of the transform generators are tested after each walk; (R03.3) the status vocabulary — every expr.Status* constant has the value of the like-named net/http constant; (R03.4) the response body is the result minus headers and cookies, wire accessors use wire-name fields on both sides (shared with R02.2/R02.4), conversion templates are inverse pairs (R02.3); (R03.5) tag-pointer decisions keep the viewed-result guard; no stale per-iteration state in the response data builder; the client response decoder picks the codec of the announced Content-Type (shared with C15/R15.1); (R03.6) the response encoder guards a field only against nil, never against a zero value. shared R17.5 (the pattern cache is keyed by the pattern: a result is validated against its own pattern). shared R08.11 (a nested result type is projected with its own view or the default one). (R03.7) what belongs to one response (its fixed content type) is set inside the test that selects the response. (R03.8) the nil test of a response header depends on the header's own attribute, not on the response being selected by a tag (known finding). (R03.9) in every function that merges inherited attributes into a body (extendBodyAttribute), every removal of header, cookie and parameter attributes from that body comes after the merge. NOT decided: equality of the result received with the result sent (needs execution), streaming order, default injection."
 
 func runC02(c *an.Ctx) string {
 	r021NameTables(c)
@@ -38,11 +38,13 @@ func runC02(c *an.Ctx) string {
 	r0210MergeCopies(c, "R02.10")
 	r15RequestEncoder(c) // shared with C15 (rule id R15.2): the client encodes the body with the codec of the type it announces
 	r0212OmitEmpty(c, "R02.12")
+	removalAfterExtension(c, "R02.13")
 	poolHygiene(c, "R02.11") // shared with C20/R20.9: a pooled request buffer that is not Reset sends the previous request's bytes first
 	return explanationC02
 }
 
 func runC03(c *an.Ctx) string {
+	removalAfterExtension(c, "R03.9") // shared with C02/R02.13 (response bodies)
 	r031Status(c)
 	r032TransformErrors(c)
 	r033StatusConstants(c)
@@ -1145,4 +1147,69 @@ func r038HeaderNilGuards(c *an.Ctx, rule string) {
 		c.Check(!strings.Contains(m[1], "$.TagName"), rule, t.Name+"#nil-guard("+coll+")", 0, "the nil test of a response header depends on the header's own attribute only",
 			"the nil test of every header of a response is switched off when the response is selected by a tag ($checkNil := … (not $.TagName)): an optional header left unset in such a response is dereferenced and the server panics")
 	}
+}
+
+// removalAfterExtension (R02.13, shared with C03 as R03.9): the body of a request or response is the payload or
+// result minus everything mapped elsewhere. extendBodyAttribute merges the attributes the type inherits through
+// Extend/Reference into the body; a removal that runs before that merge is undone by it for every inherited
+// attribute, which then travels twice (in its header, cookie or parameter and in the body). So in every function
+// that extends a body value, every removal on that same value comes after the extension. A helper of the same
+// package that removes from its first parameter counts as a removal at its call site.
+func removalAfterExtension(c *an.Ctx, rule string) {
+	pkg := c.Pkg("expr")
+	if pkg == nil {
+		c.Undecidedf(rule, "expr", 0, "package expr not loaded")
+		return
+	}
+	info := pkg.TypesInfo
+	ext, rm1, rmN := an.P("expr")+".extendBodyAttribute", an.P("expr")+".removeAttribute", an.P("expr")+".removeAttributes"
+	funcs := c.AllFuncs("expr")
+	// helpers that remove from their first parameter
+	wrapper := map[string]bool{rm1: true, rmN: true}
+	for round := 0; round < 2; round++ {
+		for _, f := range funcs {
+			if f.Decl.Type.Params == nil || len(f.Decl.Type.Params.List) == 0 || len(f.Decl.Type.Params.List[0].Names) == 0 || f.Decl.Recv != nil {
+				continue
+			}
+			p0 := info.Defs[f.Decl.Type.Params.List[0].Names[0]]
+			for _, call := range an.AllCallsIn(f.Decl.Body) {
+				if wrapper[an.CalleeName(info, call)] && len(call.Args) > 0 && an.ObjOf(info, call.Args[0]) == p0 && p0 != nil {
+					wrapper[an.P("expr")+"."+f.Decl.Name.Name] = true
+				}
+			}
+		}
+	}
+	sites, removals := 0, 0
+	for _, f := range funcs {
+		calls := an.AllCallsIn(f.Decl.Body)
+		for _, e := range calls {
+			if an.CalleeName(info, e) != ext || len(e.Args) != 1 {
+				continue
+			}
+			x := an.ObjOf(info, e.Args[0])
+			if x == nil {
+				c.Undecidedf(rule, f.Name+"#extend", e.Pos(), "the extended body is not a plain variable")
+				continue
+			}
+			sites++
+			var early []string
+			for _, r := range calls {
+				if !wrapper[an.CalleeName(info, r)] || len(r.Args) == 0 || an.ObjOf(info, r.Args[0]) != x {
+					continue
+				}
+				removals++
+				if r.Pos() < e.Pos() {
+					early = append(early, an.Src(pkg.Fset, r))
+				}
+			}
+			construct := fmt.Sprintf("%s#extend-then-remove(%s)", f.Name, x.Name())
+			if len(early) > 0 {
+				c.Failf(rule, construct, e.Pos(), "%s run(s) before the inherited attributes are merged into %s: an inherited attribute mapped to that location comes back into the body and travels twice", strings.Join(early, ", "), x.Name())
+			} else {
+				c.Okf(rule, construct, "every removal from %s follows the merge of the inherited attributes", x.Name())
+			}
+		}
+	}
+	c.Floor(rule, sites, 2, "body values extended with inherited attributes")
+	c.Floor(rule, removals, 7, "removals checked against the extension")
 }
